@@ -72,6 +72,14 @@ def generate(rng, tier, stats):
                                        canary=rng.random() < 0.5))
     for _ in range(160 if tier == "quick" else 2500):
         out.append(worldgen.gen_eds_world(rng, stats, {"scenario": rng.choice(["many_rs", "many_rs", "fresh", "new_template", "canary_failed", "steady", "no_canary_update"])}))
+    # an ExtendedDaemonSet may itself carry the hash annotation (a manifest exported from a replica set or from the
+    # generated PodTemplate): the replica set created for a template still records the hash of THAT template
+    for c in out:
+        if rng.random() < 0.3:
+            for o in c["objects"]:
+                if o["kind"] == "ExtendedDaemonSet":
+                    o["metadata"].setdefault("annotations", {})[P.A_HASH] = rng.choice(["0123456789abcdef0123456789abcdef", "stale"])
+                    wprop.bump(stats, "ExtendedDaemonSet carries a templatehash annotation", "yes")
     return out
 
 
